@@ -164,3 +164,13 @@ package generic
 //@   at call! SendInteractive#1 assert #the-events-and-options-reach-the-channel-unchanged arg0 === events && arg1 === opts
 //@   at call! NewResponse#1 assert #operation-failure-strings-win-when-given arg3 === (len(old(op.FailedWhenContains)) == 0 ? d.FailedWhenContains : old(op.FailedWhenContains))
 //@   ensures #nil-on-error result.1 != nil ==> result.0 == nil
+
+// ---- C19: the constructor applies every option, in order, to the driver, then hands the same options to the transport and
+// the channel constructors ------------------------------------------------------------------------------------------------
+//@ func NewDriver [C19]
+//@   ensures #nil-on-error result.1 != nil ==> result.0 == nil
+//@   ensures #a-driver-of-its-own result.1 == nil ==> isnew(result.0)
+//@   loop 1 invariant -1 <= rangeindex && rangeindex < len(opts) && isnew(d) && d != nil
+//@   loop 1 invariant #every-option-applied-in-order optlog == old(optlog) ++ applied(opts, box("*generic.Driver", d), rangeindex + 1)
+//@   at call! NewTransport#1 assert #the-transport-gets-the-host-the-selected-type-and-all-options arg1 == host && arg2 == d.TransportType && arg3 === opts && arg0 == d.Logger && d.Logger != nil
+//@   at call! NewChannel#1 assert #the-channel-gets-the-transport-and-all-options arg1 == d.Transport && arg2 === opts && arg0 == d.Logger
